@@ -302,6 +302,37 @@ def restore_history(rng):
     return lines
 
 
+def drop_history(rng):
+    """connection drops (every server front-end restarted over the same caches) between operations: the first call of a
+    node after the drop — store, rise, clear or fetch — must take effect exactly once (transmit reconnects and re-sends)"""
+    nsrv = rng.choice((1, 2))
+    ncl = rng.choice((2, 3))
+    l1 = [rng.choice(("n", "0", "5")) for _ in range(ncl)]
+    lines = ["cfg %s %s" % (",".join(["0"] * nsrv), ",".join(l1))]
+    keys = [rand_name(rng) for _ in range(2)]
+    now = 1000
+    for i in range(rng.randrange(3, 8)):
+        k = rng.choice(keys)
+        a = rng.randrange(ncl)
+        lines.append("store %d %d %s %s %s 9000" % (a, now, hx(k), hx(b"v%d" % i), trig_word([b"t"] if rng.random() < 0.5 else [])))
+        if rng.random() < 0.5:
+            lines.append("fetch %d %d %s 1" % (rng.randrange(ncl), now, hx(k)))
+        lines.append("drop")
+        r = rng.random()
+        if r < 0.5:
+            lines.append("store %d %d %s %s - 9000" % (a, now, hx(k), hx(b"w%d" % i)))
+        elif r < 0.7:
+            lines.append("rise %d %s" % (a, (b"t" if rng.random() < 0.5 else k).hex()))
+        elif r < 0.8:
+            lines.append("clear %d" % a)
+        else:
+            lines.append("fetch %d %d %s 1" % (a, now, hx(k)))
+        for c2 in range(ncl):
+            lines.append("fetch %d %d %s %d" % (c2, now, hx(k), rng.randrange(2)))
+        lines.append("stats %d" % rng.randrange(ncl))
+    return lines
+
+
 def trigset_history(rng):
     """many fetches WITH the trigger set over one connection (same node) for keys whose trigger sets differ (disjoint,
     nested, empty, hundreds of names): each answer must carry exactly that entry's set on a node without L1"""
@@ -885,6 +916,8 @@ def main():
     run_stream("churn", hs, True)
     hs = [restore_history(rng) for i in range(300 if thorough else 30)]
     run_stream("restore", hs, True)
+    hs = [drop_history(rng) for i in range(150 if thorough else 15)]
+    run_stream("drop", hs, True)
     hs = [trigset_history(rng) for i in range(300 if thorough else 25)]
     run_stream("trigsets", hs, True)
     # binary keys built to collide in mem_cache's hash map (same length, equal up to the first NUL, same bucket)
